@@ -54,7 +54,20 @@ def foreign(rng, ft, k=None):
         if ft == 32 and kw.get("backup"):
             b[6 * 512 + o] = r1
         img = bytes(b)
-    meta = dict(source="build", ft=ft, reserved1=r1, **{k2: v for k2, v in kw.items() if k2 in ("spc", "nf", "clusters", "fatsec", "rootent", "backup")})
+    # the text fields of the boot sector as other formatters leave them: NUL-padded or all NUL, with high bytes, unpadded (C16-m6: the
+    # header class "normalised" them to blank-padded on every assignment, so mount + close re-wrote them)
+    txt = rng.choice([None, "nul", "nul", "allnul", "high"])
+    if txt:
+        b = bytearray(img)
+        lo, fo = (71, 82) if ft == 32 else (43, 54)
+        for off, n in ((3, 8), (lo, 11), (fo, 8)):
+            val = {"nul": bytes(b[off:off + n]).rstrip(b" ")[:rng.randrange(0, n)].ljust(n, b"\0"), "allnul": b"\0" * n,
+                   "high": bytes(rng.choice([0x80, 0xE5, 0xFF, 0x20, 0x00, 0x41]) for _ in range(n))}[txt]
+            b[off:off + n] = val
+            if ft == 32 and kw.get("backup"):
+                b[6 * 512 + off:6 * 512 + off + n] = val
+        img = bytes(b)
+    meta = dict(source="build", ft=ft, reserved1=r1, text_fields=txt, **{k2: v for k2, v in kw.items() if k2 in ("spc", "nf", "clusters", "fatsec", "rootent", "backup")})
     return img, meta, len(fill) + len(hi) + (1 if r1 else 0)
 
 
